@@ -19,6 +19,14 @@ AGGS = ['sum_', 'average', 'count', 'max_', 'min_']
 SUBTOTAL = {1: 'average', 2: 'count', 4: 'max_', 5: 'min_', 9: 'sum_'}      # the property's five
 EXCEL_NAME = {'sum_': 'SUM', 'average': 'AVERAGE', 'count': 'COUNT', 'max_': 'MAX', 'min_': 'MIN'}
 
+EXPLANATION = (
+    "Theorems (coq/Props/C14.v) are stated on the functions regenerated from excellib.py / lib/stats.py "
+    "(Gen/aggregates.v, Gen/stats.v) for all argument lists; SUMPRODUCT and the SUBTOTAL dispatch are "
+    "hand-modelled (Model/Aggregates.v) on top of the generated error scan, is_array_arg, coerce_to_number "
+    "and SUBTOTAL_FUNCS table and tied by this differential run.  The property's clause that COUNT returns "
+    "the first error is refuted by the model (coq/Refuted/C14_count_error.v) and reported by the oracle as "
+    "known finding C14-count-ignores-errors.")
+
 ASSUMPTIONS = [
     "exact arithmetic: numeric cells are integers below 2^26 or dyadic fractions k/2^j (j <= 12) — for "
     "SUMPRODUCT (up to three factors) |x| < 2^10 and j <= 3 — so every float operation of the implementation is exact "
@@ -252,7 +260,7 @@ def run(ctx):
 
     # ---------------------------------------------------------- aggregates
     shapes = [(r, c) for r in range(1, 6) for c in range(1, 6)]
-    ncases = ctx.n(1500, 20000)
+    ncases = ctx.n(3000, 20000)
     for i in range(ncases):
         perr = ctx.rng.choice((0, 0, 0, 0.05, 0.3))
         pnum = ctx.rng.choice((0.5, 0.5, 0.8, 0.1, 0.0)) if ctx.rng.random() < 0.3 else 0.5
@@ -350,7 +358,7 @@ def run(ctx):
             tie('sumproduct', [enc_val(tuple(args))], case, im, 'Model/Aggregates.v sumproduct = sumproduct')
         return im, case
 
-    for i in range(ctx.n(6000, 60000)):
+    for i in range(ctx.n(9000, 60000)):
         k = ctx.rng.choice((1, 2, 2, 2, 3))
         r, c = shapes[i % 25]
         perr = ctx.rng.choice((0, 0, 0, 0.04, 0.3))
@@ -479,7 +487,7 @@ def workbook_phase(ctx, impl, tie, shapes):
     the values read back from the sheet."""
     import openpyxl
     from pycel import ExcelCompiler
-    for w in range(ctx.n(120, 1500)):
+    for w in range(ctx.n(250, 1500)):
         wb = openpyxl.Workbook()
         ws = wb.active
         ws.title = 'S'
